@@ -139,7 +139,7 @@ where
         compare(m, "Segment", kind, pos as i64, &sa, &sb, &fa, &fb, eps, rel);
     }
     // Piecewise<T>
-    let n = r.usize(1, 6);
+    let n = if r.chance(0.01) { r.usize(130, 1100) } else { r.usize(1, 6) };
     let ends: Vec<f64> = {
         let mut v: Vec<f64> = (0..n).map(|_| value(r)).collect();
         v.sort_by(|a, b| a.total_cmp(b));
